@@ -78,12 +78,31 @@ def statement_lines(module, only=None):
     return out
 
 
+def instruction_points(module, only=None):
+    """[(qualname, offset)] for every bytecode instruction of the module's functions (preemption points finer than lines:
+    a read-modify-write like `self.x += 1` is one line but several instructions)."""
+    import dis
+    out = []
+    for co in code_objects(module):
+        if only and not any(co.co_qualname.endswith(o) for o in only):
+            continue
+        for ins in dis.get_instructions(co):
+            if ins.opname in ("RESUME", "CACHE", "NOP"):
+                continue
+            out.append((co.co_qualname, ins.offset))
+    return out
+
+
 class Injector(object):
     def __init__(self, modules):
         self.modules = modules
         self.codes = []
         for m in modules:
             self.codes.extend(code_objects(m))
+        self.by_qualname = {}
+        for co in self.codes:
+            self.by_qualname.setdefault(co.co_qualname, co)
+        self._instr_code = None
         self.mode = "none"
         self.p = 0.0
         self.rng = random.Random(0)
@@ -106,6 +125,7 @@ class Injector(object):
             _mon.free_tool_id(TOOL)
             _mon.use_tool_id(TOOL, "vf-inject")
         _mon.register_callback(TOOL, _mon.events.LINE, self._on_line)
+        _mon.register_callback(TOOL, _mon.events.INSTRUCTION, self._on_instruction)
         for co in self.codes:
             _mon.set_local_events(TOOL, co, _mon.events.LINE)
         self.active = True
@@ -116,10 +136,20 @@ class Injector(object):
         for co in self.codes:
             _mon.set_local_events(TOOL, co, 0)
         _mon.register_callback(TOOL, _mon.events.LINE, None)
+        _mon.register_callback(TOOL, _mon.events.INSTRUCTION, None)
         _mon.free_tool_id(TOOL)
         self.active = False
 
     def configure(self, mode, seed=0, p=0.0, plan=None):
+        # instruction events only on the one code object an instruction-level stall targets
+        if self._instr_code is not None:
+            _mon.set_local_events(TOOL, self._instr_code, _mon.events.LINE)
+            self._instr_code = None
+        if mode == "istall" and plan is not None and self.active:
+            co = self.by_qualname.get(plan["qualname"])
+            if co is not None:
+                _mon.set_local_events(TOOL, co, _mon.events.LINE | _mon.events.INSTRUCTION)
+                self._instr_code = co
         with self.lock:
             self.mode = mode
             self.p = p
@@ -154,7 +184,7 @@ class Injector(object):
                     time.sleep(0.0002 + r2 * 0.0008 - 0.00056)
             return None
         plan = self.plan
-        if plan is None or self.stalled:
+        if plan is None or self.stalled or mode != "stall":
             return None
         if line == plan["line"] and role == plan["role"] and code.co_qualname == plan["qualname"]:
             with self.lock:
@@ -172,6 +202,29 @@ class Injector(object):
             # park: let the other threads run `budget` monitored lines (or until the cap)
             while time.monotonic() < deadline and self.lines_total - start_lines < budget:
                 time.sleep(0.0003)
+        return None
+
+    def _on_instruction(self, code, offset):
+        plan = self.plan
+        if self.mode != "istall" or plan is None or self.stalled:
+            return None
+        if offset != plan["offset"] or code.co_qualname != plan["qualname"]:
+            return None
+        role = role_of_name(threading.current_thread().name)
+        if role != plan["role"]:
+            return None
+        with self.lock:
+            if self.stalled:
+                return None
+            self.occ += 1
+            if self.occ != plan["k"]:
+                return None
+            self.stalled = True
+            start_lines = self.lines_total
+        self.hits += 1
+        deadline = time.monotonic() + plan["cap"]
+        while time.monotonic() < deadline and self.lines_total - start_lines < plan["budget"]:
+            time.sleep(0.0003)
         return None
 
     def snapshot(self):
